@@ -3,6 +3,8 @@
 package vsess
 
 import (
+	"strconv"
+
 	"github.com/paulsonkoly/calc/internal/vrt"
 	"github.com/paulsonkoly/calc/types/node"
 	"github.com/paulsonkoly/calc/types/value"
@@ -271,5 +273,33 @@ func VerifC05Lists() {
 	vrt.Note("program", Src(prog))
 	_, err := s.Run(prog, used)
 	vrt.Assert(Class(err) != EOther, "outcome-is-value-or-documented-error")
+	vrt.Cover("done")
+}
+
+// VerifC05Wide: functions with many local variables (frame widths crossing the allocation
+// boundaries), called at top level, recursively and from a generator.
+func VerifC05Wide() {
+	s := New()
+	sizes := [...]int{1, 127, 128, 129, 200, 256, 300}
+	n := sizes[vrt.Choice("locals", vrt.Param("widesizes", len(sizes)))]
+	body := make([]node.Type, 0, n+2)
+	for i := 0; i < n; i++ {
+		body = append(body, asg("v"+strconv.Itoa(i), node.Int(vrt.Int("lit"))))
+	}
+	last := "v" + strconv.Itoa(n-1)
+	var prog node.Type
+	switch vrt.Choice("shape", 3) {
+	case 0:
+		body = append(body, nm(last))
+		prog = blk(asg("f", fn(blk(body...))), call("f"))
+	case 1: // recursion: the wide frame is pushed twice
+		body = append(body, node.IfElse{Condition: bin("<", nm("d"), node.Int(1)), TrueCase: call("f", bin("+", nm("d"), node.Int(1))), FalseCase: nm(last)})
+		prog = blk(asg("f", fn(blk(body...), "d")), call("f", node.Int(0)))
+	default: // a generator with a wide frame, consumed by a loop
+		body = append(body, node.Yield{Target: nm(last)}, node.Yield{Target: nm("v0")})
+		prog = blk(asg("f", fn(blk(body...))), node.For{VarRefs: node.List{Elems: []node.Type{nm("k")}}, Iterators: node.List{Elems: []node.Type{call("f")}}, Body: nm("k")})
+	}
+	_, err := s.Run(prog, true)
+	vrt.Assert(Class(err) == OK, "wide-function-runs")
 	vrt.Cover("done")
 }
